@@ -50,6 +50,8 @@ pub struct GenOpts {
     /// chance (percent) that a one-shot chunk pull asks for zero elements (a no-op by
     /// documentation)
     pub zero_pct: u64,
+    /// chance (percent) that the destructor of one element panics
+    pub drop_panic_pct: u64,
 }
 
 impl GenOpts {
@@ -87,6 +89,7 @@ impl GenOpts {
             short_hint_pct: 0,
             consumer_panic_pct: 0,
             zero_pct: 0,
+            drop_panic_pct: 0,
         }
     }
 }
@@ -204,6 +207,7 @@ pub fn opts_for(prop: &str) -> GenOpts {
             o.into_seq_pct = 50;
             o.drain = false;
             o.consumer_panic_pct = 12;
+            o.drop_panic_pct = 8;
         }
         "C09" => {
             o.w_skip = 6;
@@ -595,7 +599,7 @@ pub fn generate_with(prop: &str, o: &GenOpts, base_seed: u64, index: u64) -> Run
             }
             PanicSite::Clone => o.kinds = vec![Kind::ClonedSlice, Kind::ClonedIter],
             PanicSite::Closure => o.w_composite = 60,
-            PanicSite::Consumer => {}
+            PanicSite::Consumer | PanicSite::ElemDrop => {}
         }
     }
     let o = &o;
@@ -693,6 +697,16 @@ pub fn generate_with(prop: &str, o: &GenOpts, base_seed: u64, index: u64) -> Run
         // the caller panics after its k-th chunk element (seeded change C08-r5)
         panic = Some((PanicSite::Consumer, rng.range(0, (len.max(1) - 1).min(3)) as u32));
     }
+    if panic.is_none()
+        && o.drop_panic_pct > 0
+        && len >= 1
+        && kind.consuming()
+        && !kind.is_zst()
+        && rng.chance(o.drop_panic_pct, 100)
+    {
+        // the destructor of one element panics (seeded change C08-r7)
+        panic = Some((PanicSite::ElemDrop, rng.range(0, len - 1) as u32));
+    }
     let heap_bytes = if rng.chance(o.heap_pct, 100) {
         *rng.pick(&[8usize, 24, 4096])
     } else {
@@ -764,6 +778,12 @@ pub fn generate_with(prop: &str, o: &GenOpts, base_seed: u64, index: u64) -> Run
             // (far more than the pulls past the end can make up for, in most cases)
             cfg.hint_long = *rng.pick(&[1usize, 2, 40, 100, 1000]);
         }
+    }
+    if matches!(cfg.panic, Some((PanicSite::ElemDrop, _))) {
+        // std's default `Iterator::last` (a fold that drops the previous candidate after the next
+        // one has been built) itself loses the element it holds when that destructor panics:
+        // the caller's loss, not the crate's. The rest of a chunk is dropped in these runs.
+        cfg.finish = 0;
     }
     cfg
 }
